@@ -26,10 +26,14 @@ class C22(EngineACheck):
         "per generated workload (program <= ~10 jobs + one seeded schedule): EVERY commit index of "
         "the recording execution is used as a crash point (complete sweep for that workload), and a "
         "sample of statement indices gets a transient OperationalError (1-3 consecutive); each "
-        "faulty execution is followed by a recovery execution of the same or an edited program; a "
+        "faulty execution is followed by a recovery execution of the same or an edited program; in "
+        "half of the workloads the backend additionally gets a value store and the process dies "
+        "inside sampled ValueStore.put calls (nothing written / torn object / object complete but "
+        "row not committed), followed by two further executions; a "
         "case is (workload, fault position, recovery kind); non-trivial = the fault fired"
     )
-    EXPECTED_PROBES = ["crash_points", "transient_errors_absorbed", "recoveries_checked"]
+    EXPECTED_PROBES = ["crash_points", "transient_errors_absorbed", "recoveries_checked",
+                       "value_store_crash_points"]
     QUICK_SECONDS = 45.0
     RUN_TIMEOUT = 300.0
     ASSUMPTIONS = EngineACheck.ASSUMPTIONS + [
@@ -117,6 +121,10 @@ class C22(EngineACheck):
                     out.violate("C22.references_after_recovery", f"{bad[0][0]}@{site}",
                                 {"k": k, "violations": bad[:5]})
 
+            # ---- crash inside value-store writes (the backend's other durable store) ----
+            if ch.coin(0.5, "value-store-part"):
+                self.value_store_part(ch, out, prog, sess, sched_seed, rec_seed, fresh_same)
+
             # ---- transient OperationalError at sampled statement indices ----
             for _ in range(n_stmt_faults):
                 j = 1 + ch.choice(max(S, 1), "stmt-index")
@@ -176,6 +184,89 @@ class C22(EngineACheck):
         out.sample = self.sample(prog, base.world, base, note={"commits": K, "statements": S,
                                                               "crash_points_swept": len(ks)})
         return out
+
+    def value_store_part(self, ch: Choices, out: RunOutcome, prog, sess, sched_seed: int,
+                         rec_seed: int, fresh_same) -> None:
+        """The same workload with a value store configured (threshold low enough that almost
+        every value is offloaded).  The process dies at the k-th ValueStore.put: before anything
+        is written, after a prefix reached the disk (torn object), or after the object is
+        complete but before its database row is committed.  Then a recovery execution (re-records)
+        and one more execution (reads what the recovery left) must both equal the fresh run."""
+        import os
+        import shutil
+
+        from redun.backends.value_store import ValueStore
+        from simkit.schedsim import SimCrash
+
+        vs_dir = os.path.join(schedsim.scratch_dir(), "c22-valuestore")
+
+        def configure(plan):
+            def setup(w, rec, sched):
+                store = ValueStore(vs_dir)
+                sched.backend.value_store = store
+                sched.backend.value_store_min_size = 40
+                orig_put = store.put
+                plan["puts"] = 0
+
+                def put(value_hash, data):
+                    plan["puts"] += 1
+                    if plan.get("at") == plan["puts"] and not plan.get("fired"):
+                        plan["fired"] = True
+                        mode = plan["mode"]
+                        path = store.get_value_path(value_hash)
+                        plan["fresh_object"] = not os.path.exists(path)
+                        if mode == "torn" and plan["fresh_object"]:
+                            os.makedirs(os.path.dirname(path), exist_ok=True)
+                            with open(path, "wb") as f:
+                                f.write(data[: plan["prefix"] % max(len(data), 1)])
+                        elif mode == "after":
+                            orig_put(value_hash, data)
+                        w.dead = True
+                        w.event("CRASH", "value-store-put", plan["puts"], mode)
+                        raise SimCrash(f"process dies in value store put {plan['puts']} ({mode})")
+                    return orig_put(value_hash, data)
+
+                store.put = put
+            return setup
+
+        shutil.rmtree(vs_dir, ignore_errors=True)
+        db = schedsim.fresh_db("vs-base.db")
+        plan0: dict = {}
+        res0, _ = histsim.run_with_faults(sched_seed, prog, db, sess, extra_setup=configure(plan0))
+        nputs = plan0.get("puts", 0)
+        if res0.outcome[0] == "abort" or refinterp.okey(res0.outcome) != fresh_same:
+            if res0.outcome[0] != "abort":
+                out.violate("C22.value_store_transparent", "fault-free",
+                            {"got": repr(refinterp.okey(res0.outcome))[:300],
+                             "fresh": repr(fresh_same)[:300]})
+            return
+        if nputs == 0:
+            return
+        points = 4 if self.tier == "quick" else min(3 * nputs, 60)
+        for _ in range(points):
+            plan = {"at": 1 + ch.choice(nputs, "put-index"),
+                    "mode": ["before", "torn", "torn", "after"][ch.choice(4, "put-crash-mode")],
+                    "prefix": ch.choice(64, "torn-prefix")}
+            shutil.rmtree(vs_dir, ignore_errors=True)
+            db = schedsim.fresh_db("vs-crash.db")
+            histsim.run_with_faults(sched_seed, prog, db, sess, extra_setup=configure(plan))
+            if not plan.get("fired"):
+                continue
+            out.fault("crash_in_value_store_put_" + plan["mode"])
+            out.probe("value_store_crash_points")
+            out.nontrivial = True
+            sig = f"crash@value-store-put/{plan['mode']}"
+            for step in ("recovery", "after-recovery"):
+                r, _ = histsim.run_with_faults(rec_seed, prog, db, sess, extra_setup=configure({}))
+                got = refinterp.okey(r.outcome) if r.outcome[0] != "abort" else ("abort", r.outcome[1])
+                if got != fresh_same:
+                    errname = got[1][1] if got[0] == "e" else got[0]
+                    out.violate("C22.recovery_equals_fresh", f"{sig}->{errname}/{step}",
+                                {"put": plan["at"], "of": nputs, "mode": plan["mode"],
+                                 "prefix": plan["prefix"], "step": step,
+                                 "recovered": repr(got)[:300], "fresh": repr(fresh_same)[:300]})
+                    break
+        shutil.rmtree(vs_dir, ignore_errors=True)
 
 
 CHECK = C22
